@@ -60,7 +60,7 @@ package ethereum
 //@   ensures [error-returns-nothing] err != nil ==> len(msgs) == 0
 //@   modifies fresh common.MessagePublication.*, fresh types.Receipt.*, fresh types.Log.*, fresh lib:big.Int.v, fresh abi.AbiLogMessagePublished.*
 //@   nopanic
-//@   replay ethereum_bytx.go.tmpl
+//@   replay ethereum_watcher.go.tmpl
 //@   at [return receipt.BlockNumber.Uint64(), msgs, nil]: assert [success-status-only] receipt != nil && receipt.Status == 1
 //@   at [msgs = append(msgs, message)]: assert [core-contract-topic-status] l != nil && l.Address == contract && len(l.Topics) >= 1 && l.Topics[0] == LogMessagePublishedTopic && receipt.Status == 1
 //@   at [msgs = append(msgs, message)]: assert [message-of-that-log] message.TxHash == l.TxHash && message.ConsistencyLevel == ev.ConsistencyLevel && message.Sequence == ev.Sequence && message.EmitterChain == chainId && message.Nonce == ev.Nonce
@@ -102,7 +102,7 @@ package ethereum
 // is at most that head, and never on an unknown (zero) head.
 //@   closure [go]#2:
 //@     requires w != nil && allocated(w) && w.ethConn != nil && allocated(w.ethConn) && w.ethConn.Connector != nil
-//@     replay ethereum_reobserve.go.tmpl
+//@     replay ethereum_watcher.go.tmpl
 //@     at [MessageEventsForTransaction(timeout, w.ethConn, w.contract, w.chainID, tx)]: assert [head-read-before-receipt] ghostCount("headread") == atHead(ghostCount("headread")) + 1
 //@     at [range msgs]: assert [head-not-reread] ghostCount("headread") == atHead(ghostCount("headread")) + 1
 //@     at [w.msgChan <- msg]: assert [depth-reached] blockNumberU != 0 && blockNumber + (w.waitForConfirmations ? msg.ConsistencyLevel : 0) <= blockNumberU
@@ -134,7 +134,7 @@ package ethereum
 // go#4: the per-head scan of the pending set.
 //@   closure [go]#4:
 //@     requires wfPending(w)
-//@     replay ethereum_headscan.go.tmpl
+//@     replay ethereum_watcher.go.tmpl
 //@     loop [for]:
 //@       invariant [self] wfPending(w)
 //@     loop [range w.pending]:
